@@ -212,6 +212,36 @@ func agwpe.(*TNC).run(t) ()
   props C13
   requires tnc: t.conn != nil && t.demux != nil
   call agwpe.(*TNC).read requires fresh-frame: $1.Data == nil
+  # only frames that were read completely are handed to the demultiplexer; the loop ends only on a
+  # read error or when the demultiplexer is closed
+  call agwpe.(*TNC).read set gRunReadErr := $r0
+  call agwpe.(*demux).Enqueue requires only-frames-that-were-read: gRunReadErr == nil
+  call agwpe.(*demux).Enqueue set gRunEnqOk := $r0
+  at return#1 requires ends-on-a-read-error: gRunReadErr != nil
+  at return#2 requires ends-when-the-demux-is-closed: gRunReadErr == nil && !gRunEnqOk
+ghost var gRunReadErr error
+ghost var gRunEnqOk bool
+
+# Accept hands out exactly the connections the inbound watcher queued; a closed queue or a closed
+# listener is an error, never a nil connection with a nil error
+func agwpe.(*Listener).Accept(ln) (c, err)
+  props C13
+  requires ln: ln != nil && ln.p != nil
+  at select requires waits-for-inbound-connections-or-close: $c0 == ln.p.inboundConns && $c1 == ln.done
+  at return#0 requires closed-port-is-an-error: !ok && $r1 == ErrPortClosed
+  at return#1 requires the-queued-connection: ok && $r1 == nil
+  at return#2 requires closed-listener-is-an-error: $r1 == ErrListenerClosed
+
+# a port is handed out only after its registration succeeded; a failed one closes the TNC link
+ghost var gRegErr error
+func agwpe.(*TNC).RegisterPort(t, port, mycall) (p, err)
+  props C13
+  requires tnc: t != nil && t.conn != nil && t.demux != nil
+  call agwpe.(*Port).register set gRegErr := $r0
+  call agwpe.(*TNC).Close requires only-after-a-failed-registration: gRegErr != nil
+  ensures failed-registration-reported: gRegErr != nil ==> p == nil && err == gRegErr
+  ensures port-only-when-registered: err == nil ==> p != nil && gRegErr == nil
+
 
 func agwpe.(*TNC).read(t, f) (err)
   props C13
